@@ -145,6 +145,14 @@ def aliasRoots (is : List Instr) : List Nat :=
           | .priv | .pub | .const | .privb | .pubb => roots.getD l l
           | _ => k
         | _ => k
+      -- an element read back from a list literal is the element object itself
+      | .idx a i =>
+        match is[a]? with
+        | some (.list xs) =>
+          match pyIndex xs.length i with
+          | some j => match xs[j]? with | some e => roots.getD e e | none => k
+          | none => k
+        | _ => k
       | _ => k
     roots ++ [r]) []
 
